@@ -17,6 +17,10 @@ import vlib
 LEVEL = "model_checking"
 BIN = "c03"
 TRACE = "Trace_BlobStore"
+# subjects recorded to deviate (known_findings.json): the harness writes their runs to files of their own, so that
+# TLC never has to re-validate the other subjects of a file because of them (purely a cost matter: any subject
+# that is rejected is cut out and re-judged on its own by ctx.validate)
+ISOLATE = "huff:trained,zipoffset:,dictzip:,zerolen:new,trie:memory,triekey:,triebuild:memory,stack:huff_zstd_mem"
 
 
 def _flip_digest(d):
@@ -118,6 +122,31 @@ def _reissued_ids(files):
     return n
 
 
+def _one_file_per_isolated_subject(ctx, files):
+    """the B1 and B2 trace files of an isolated subject are concatenated (one JVM start instead of two)"""
+    out, by_subject = [], {}
+    for p in files:
+        if "-s" in os.path.basename(p):
+            with open(p) as f:
+                subj = json.loads(f.readline()).get("subject", "")
+            by_subject.setdefault(subj, []).append(p)
+        else:
+            out.append(p)
+    d = os.path.join(ctx.work, "merged")
+    os.makedirs(d, exist_ok=True)
+    for i, (subj, ps) in enumerate(sorted(by_subject.items())):
+        if len(ps) == 1:
+            out.append(ps[0])
+            continue
+        q = os.path.join(d, "bs-m%03d.ndjson" % i)
+        with open(q, "w") as w:
+            for p in ps:
+                with open(p) as f:
+                    w.write(f.read())
+        out.append(q)
+    return out
+
+
 def run(ctx):
     ctx.build(BIN)
     # --- the contract itself, exhaustively for small constants
@@ -127,12 +156,12 @@ def run(ctx):
     beh, nbeh = ctx.tlc_generate("MC_BlobStoreGen", cfg=gen_cfg, timeout=1500, jvm="-Xmx8g")
     if nbeh == 0:
         raise vlib.ToolError("MC_BlobStoreGen produced no behaviours")
-    s2 = ctx.harness(BIN, "replay", "b2", extra={"in": beh, "sample": 4000 if ctx.thorough else 250})
+    s2 = ctx.harness(BIN, "replay", "b2", extra={"in": beh, "sample": 4000 if ctx.thorough else 250, "isolate": ISOLATE})
     # --- B1: seeded random histories + bulk builds
-    s1 = ctx.harness(BIN, "drive", "b1")
+    s1 = ctx.harness(BIN, "drive", "b1", extra={"isolate": ISOLATE})
     b1files = sorted(glob.glob(os.path.join(s1["_out"], "*.ndjson")))
     b2files = sorted(glob.glob(os.path.join(s2["_out"], "*.ndjson")))
-    ctx.validate(TRACE, b1files + b2files, what="blob store operation history")
+    ctx.validate(TRACE, _one_file_per_isolated_subject(ctx, b1files + b2files), what="blob store operation history")
     # --- binding self-tests: corrupted results must be rejected
     plain = _first_file_with(b1files, lambda h: h.get("subject") == "mem:new") or b1files[0]
     ctx.selftest_corrupt(TRACE, plain, corrupt_get_digest, "digest returned by a successful get changed by one")
